@@ -24,6 +24,7 @@ thread_local! {
     static CLOCK_READS: Cell<u64> = Cell::new(0);
     static WRITES: Cell<u64> = Cell::new(0);
     static LAST_PANIC: RefCell<Option<(String, String)>> = RefCell::new(None);
+    static PROGRESS: Cell<bool> = Cell::new(false);
 }
 
 pub struct CountingRng(StdRng);
@@ -168,6 +169,7 @@ fn run_ops(
     comp: &RootCompilationScope<W, R, T>,
     job: &Value,
     steps: &[Value],
+    first_index: usize,
     replies: &mut Vec<Value>,
 ) {
     let dump_opts = vh::DumpOptions {
@@ -185,7 +187,8 @@ fn run_ops(
     let mut kept: Vec<EvaluatedValue<W, R, T>> = Vec::new();
     let reinst_on_panic = job["reinst_on_panic"].as_bool().unwrap_or(true);
 
-    for step in steps {
+    for (step_no, step) in steps.iter().enumerate() {
+        progress(first_index + step_no);
         let op = step["op"].as_str().unwrap_or("");
         let mut reply = match op {
             "inst" => {
@@ -383,7 +386,17 @@ fn run_ops(
     replies.push(json!({"final_bytes": vh::accounted_bytes(&rt)}));
 }
 
+/// tells the supervisor which step is in flight, so that a hang or an abort is attributed exactly
+fn progress(step: usize) {
+    if PROGRESS.with(|p| p.get()) {
+        let mut o = std::io::stdout().lock();
+        let _ = writeln!(o, "#{step}");
+        let _ = o.flush();
+    }
+}
+
 fn run_job(job: &Value) -> Value {
+    PROGRESS.with(|p| p.set(job["progress"].as_bool().unwrap_or(true)));
     RNG_DRAWS.with(|c| c.set(0));
     RNG_CREATED.with(|c| c.set(0));
     CLOCK_READS.with(|c| c.set(0));
@@ -417,6 +430,7 @@ fn run_job(job: &Value) -> Value {
     };
     let mut i = 0;
     while i < steps.len() {
+        progress(i);
         if let Some(src) = steps[i]["feed"].as_str() {
             let t0 = Instant::now();
             let r = catch_unwind(AssertUnwindSafe(|| match comp.feed_file(src) {
@@ -446,7 +460,7 @@ fn run_job(job: &Value) -> Value {
             while j < steps.len() && steps[j]["feed"].as_str().is_none() {
                 j += 1;
             }
-            run_ops(&comp, job, &steps[i..j], &mut replies);
+            run_ops(&comp, job, &steps[i..j], i, &mut replies);
             i = j;
         }
     }
